@@ -19,7 +19,21 @@ def one(job):
     return rid, pid, p.returncode, keys[:3], p.stdout[-400:]
 
 
+def report():
+    ids = sorted(os.listdir(V + '/refactorings'))
+    lines = ['| refactoring | what was re-implemented | uses a freedom the properties leave | checks run -> result |', '|---|---|---|---|']
+    for rid in ids:
+        meta = json.load(open('%s/refactorings/%s/meta.json' % (V, rid)))
+        cell = '; '.join('%s -> %s' % (r['check'], {0: 'no alarm', 1: 'ALARM ' + ','.join(r['clauses']), 2: 'machinery failure'}.get(r['exit'], r['exit'])) for r in meta.get('result', []))
+        lines.append('| %s | %s | %s | %s |' % (rid, str(meta.get('summary', '')).replace('|', '/').replace('\n', ' ')[:260], str(meta.get('uses_property_freedom', 'no')).replace('|', '/')[:80], cell))
+    os.makedirs(V + '/selftest', exist_ok=True)
+    open(V + '/selftest/FALSE_ALARMS.md', 'w').write('\n'.join(lines) + '\n')
+    print('\n'.join(lines[-4:]))
+
+
 def main():
+    if sys.argv[1:] == ['--report']:
+        return report()
     ids = sys.argv[1:] or sorted(os.listdir(V + '/refactorings'))
     jobs = [(rid, pid) for rid in ids for pid in json.load(open('%s/refactorings/%s/meta.json' % (V, rid)))['checks']]
     res = {}
